@@ -133,6 +133,7 @@ def run_impl(case):
     excl = bool(np.all(pw.sum(axis=(-1, -2)) == 1)) if pw.size else True
     # documented defaults: omitting score_class / equal_class means "pos" (whatever the other argument is)
     defaults_ok = True
+    from_labels_bad = False
     if pw.size:
         d1 = pointwise_cm(labels, scores, thr, score_class=case["sc"])
         e1 = pointwise_cm(labels, scores, thr, score_class=case["sc"], equal_class="pos")
@@ -144,6 +145,17 @@ def run_impl(case):
         s_def = Scores(pos, neg, nb_easy_pos=case["ep"], nb_easy_neg=case["en"], score_class=case["sc"])
         s_exp = Scores(pos, neg, nb_easy_pos=case["ep"], nb_easy_neg=case["en"], score_class=case["sc"], equal_class="pos")
         defaults_ok = defaults_ok and bool(np.array_equal(s_def.cm(thr).matrix, s_exp.cm(thr).matrix))
+    # the alternative constructor: the same data interleaved as (labels, scores) builds an object with the same matrices
+    if pw.size:
+        rs_ = np.random.RandomState(len(pos) * 7 + len(neg))
+        order_ = rs_.permutation(len(scores))
+        pl_ = [1, 0, "p"][len(pos) % 3]
+        lab_ = np.array([pl_ if v == 1 else {1: 0, 0: 2, "p": "n"}[pl_] for v in labels], dtype=object if pl_ == "p" else None)
+        s_fl = Scores.from_labels(lab_[order_], scores[order_], pos_label=pl_, nb_easy_pos=case["ep"], nb_easy_neg=case["en"],
+                                  score_class=case["sc"], equal_class=case["ec"])
+        if not np.array_equal(s_fl.cm(thr).matrix, cm.matrix):
+            defaults_ok = False
+            from_labels_bad = True
     # objects derived from this one (bootstrap samples under every built-in configuration, swap(), the same data as a
     # GroupScores and its samples) are Scores objects too: their cm() must count their own pos / neg arrays
     derived = []
@@ -171,7 +183,7 @@ def run_impl(case):
             derived.append({"what": what, "pos": [enc(float(x)) for x in d.pos], "neg": [enc(float(x)) for x in d.neg],
                             "ep": int(d.nb_easy_pos), "en": int(d.nb_easy_neg), "sc": str(getattr(d.score_class, "value", d.score_class)), "ec": str(getattr(d.equal_class, "value", d.equal_class)),
                             "cm": [[int(v) for v in m.reshape(-1)] for m in d.cm(thr).matrix]})
-    return {"defaults_ok": defaults_ok, "derived": derived, "cm": mats, "rates": rates, "pw_sum": pw_sum, "pw_shape": pw_shape, "pw_exclusive": excl, "cm_is_sorted": raw, "pw_layout_ok": layout_ok}
+    return {"from_labels_bad": from_labels_bad, "defaults_ok": defaults_ok, "derived": derived, "cm": mats, "rates": rates, "pw_sum": pw_sum, "pw_shape": pw_shape, "pw_exclusive": excl, "cm_is_sorted": raw, "pw_layout_ok": layout_ok}
 
 
 def _scores_term(case):
@@ -246,7 +258,10 @@ def oracle(case, res):
         fails.append(("C01/margins", f"TP+FN / FP+TN depend on the threshold: {sorted(margins)}"))
     if not r["pw_exclusive"]:
         fails.append(("C01/pointwise", "some sample is not in exactly one cell of pointwise_cm"))
-    if not r.get("defaults_ok", True):
+    if r.get("from_labels_bad"):
+        fails.append(("C01/from_labels", "Scores.from_labels(labels, scores, ...) on the same data (interleaved) gives confusion matrices that differ "
+                                         "from those of Scores(pos, neg, ...) with the same flags and easy counts"))
+    elif not r.get("defaults_ok", True):
         fails.append(("C01/defaults", "pointwise_cm / Scores with score_class or equal_class omitted differ from the same call with the documented default 'pos' passed explicitly"))
     if not r.get("pw_layout_ok", True):
         fails.append(("C01/pointwise-layout", "pointwise_cm depends on the memory layout (Fortran order / transposed view) of its threshold, label or score arrays"))
